@@ -823,8 +823,17 @@ func c20MixRound(run *common.Run, ch *c20Child, round int, scenario int) (int, s
 	worker("scan", func(ctx context.Context, data btpb.BigtableClient, _ btapb.BigtableTableAdminClient, n int) error {
 		return drainRows(data.ReadRows(ctx, &btpb.ReadRowsRequest{TableName: tname}))
 	})
-	// clients that walk away from a scan: cancel after 0-2 messages, or let a very short deadline expire
-	worker("abandon", func(ctx context.Context, data btpb.BigtableClient, _ btapb.BigtableTableAdminClient, n int) error {
+	// clients that walk away from a scan: cancel after 0-5 messages, or let a very short deadline expire
+	// the scans of this client come over a connection with fixed 64 KiB flow-control windows; its writes over the usual one
+	swConn, swData, swErr := s.NewSmallWindowConn()
+	if swErr == nil {
+		defer swConn.Close()
+	}
+	worker("abandon", func(ctx context.Context, wdata btpb.BigtableClient, _ btapb.BigtableTableAdminClient, n int) error {
+		data := wdata
+		if swErr == nil {
+			data = swData
+		}
 		cctx, cancel := context.WithCancel(ctx)
 		if n%4 == 3 {
 			cancel()
@@ -835,16 +844,16 @@ func c20MixRound(run *common.Run, ch *c20Child, round int, scenario int) (int, s
 		if err != nil {
 			return nil
 		}
-		for i := 0; i < n%3; i++ {
+		for i := 0; i < n%6; i++ {
 			if _, err := st.Recv(); err != nil {
 				return nil
 			}
 		}
-		if n%3 > 0 {
+		if n%6 > 0 {
 			// the client has stopped reading a scan that still has megabytes to deliver (the server is blocked in
 			// Send by flow control): a write to the same table must go through meanwhile
 			wctx, wcancel := context.WithTimeout(ctx, 30*time.Second)
-			_, werr := data.MutateRow(wctx, &btpb.MutateRowRequest{TableName: tname, RowKey: []byte("a00001"), Mutations: drive.MutsToProto([]model.Mut{{Kind: model.SetCell, Fam: "f1", Qual: "stall", TS: 3000, Val: "w"}})})
+			_, werr := wdata.MutateRow(wctx, &btpb.MutateRowRequest{TableName: tname, RowKey: []byte("a00001"), Mutations: drive.MutsToProto([]model.Mut{{Kind: model.SetCell, Fam: "f1", Qual: "stall", TS: 3000, Val: "w"}})})
 			wcancel()
 			if status.Code(werr) == codes.DeadlineExceeded {
 				hang.Store("a write to the table was not answered within 30 s while another client had stopped reading its scan of that table")
